@@ -32,7 +32,9 @@ RULE = ('programs of <=4 NumPy-API operations (all 78 function.HANDLED_FUNCTIONS
         'generated per (environment, target operation, index) from the seed: a systematic part (every operation as the last call, in each of 6 '
         'environments: function.eval without sample, plain, mixed-element, boundary, 2-space and 3-space product samples), random compositions, '
         'hostile corners (out-of-range / reversed slices, several index arrays, negative transpose axes, abs of bool, interp with int fp and float '
-        'left/right), targeted negative function-valued indices into bases / stacked operands, direct calls of function.broadcast_shapes / '
+        'left/right), targeted negative function-valued indices into bases / stacked operands, integer-range-sensitive compositions (integer constants '
+        'and element indices of one sign class combined by stack/concatenate/choose/arithmetic, then minimum/maximum/clip/mod/floor_divide/comparison/'
+        'where-like/indexing with the other operand at the edge of the true range), direct calls of function.broadcast_shapes / '
         'broadcast_arrays / typecast_arrays, and shape perturbations (one axis length of one operand) that numpy rejects. non-trivial = at least one operation node was built on a function array, evaluated on the '
         'sample and compared at every point (or, in reject mode, numpy rejected the perturbed shapes); distinct = hash of the program structure '
         '(environment, operations, forms, parameters, operand kinds and shapes; leaf values excluded)')
@@ -53,6 +55,8 @@ RAND = {'quick': 1400, 'thorough': 36000}       # random compositions
 REJECT_PER = {'quick': 12, 'thorough': 120}     # rejection cases per shape-sensitive operation
 HOSTILE_PER = {'quick': 3, 'thorough': 20}      # per (hostile corner, environment)
 FNINDEX_PER = {'quick': 8, 'thorough': 80}      # per (take|getitem, environment): negative function-valued index into a basis / stacked operand
+INTRANGE_PER = {'quick': 40, 'thorough': 1200}  # integer-range-sensitive compositions (x INTRANGE_WEIGHT per environment)
+INTRANGE_WEIGHT = {'const': 3., 'plain': 1.5, 'mixed': .5, 'boundary': .5, 'prod2': .4, 'prod3': .2}
 HELPER_UNITS = {'quick': 4, 'thorough': 30}     # x100 direct calls of function.broadcast_shapes / broadcast_arrays / typecast_arrays
 CHUNK = 40
 # evaluation on product samples is 5-10x more expensive (nested point loops in the generated code): fewer cases there
@@ -79,6 +83,10 @@ FINDINGS = {
                                 'product sample: ValueError in the generated Assemble statement; the unoptimised evaluation equals NumPy (root cause in the scope of C02)', True),
     'C07-empty-result-on-product-sample': ('a function array with a zero-length axis (a[2:1]) evaluated on a product sample (sx*sy) comes back with 0 points: '
                                            'shape (0, 0, ...) instead of (npoints, 0, ...); _Mul._bind reshapes with -1', True),
+    'C07-assemble-no-int-range': ('an integer numpy.stack / numpy.concatenate result used as index (numpy.take, __getitem__) or as integer exponent fails with AssertionError '
+                                  'in the optimisation pass only: evaluable.Assemble has no _intbounds_impl, so its inferred range is unbounded', True),
+    'C07-choose-bool-selector': ('numpy.choose(f > 0, [a, b]) with a boolean selector builds but evaluation raises AssertionError (evaluable.Choose demands an int index); '
+                                 'corner switched off pending a decision: the where-like cases use (f > 0) * 1', False),
     'C07-cross-int-float': ('numpy.cross of two integer function arrays has dtype float (float Levi-Civita symbol); NumPy gives int', True),
 }
 
@@ -104,6 +112,10 @@ def plan(tier, seed):
     for env in ENV_NAMES:
         if env != 'const':
             units.append(dict(kind='fnindex', env=env, n=FNINDEX_PER[tier]))
+    for env in ENV_NAMES:
+        n = max(2, int(round(INTRANGE_PER[tier] * INTRANGE_WEIGHT[env])))
+        for k in range(0, n, 40):
+            units.append(dict(kind='intrange', env=env, start=k, stop=min(n, k + 40)))
     names = sorted(OPS)
     sysunits = []
     for env in ENV_NAMES:
@@ -129,7 +141,11 @@ def classify(prog, monitor, nodeid):
         return None
     op, params = s['op'], s['params']
     if monitor.endswith('(optimised code only)'):
+        if op in ('power', 'take', 'getitem') and any(byid[a].get('op') in ('stack', 'concatenate') for r in s['args'][1:] for a in ({r} | _ancestors(prog, r)) if a in byid):
+            return 'C07-assemble-no-int-range'
         return 'C07-optimized-mode-only'
+    if op == 'choose' and monitor == 'evaluation failed' and _kind_of(prog, byid[s['args'][0]]) == 'b':
+        return 'C07-choose-bool-selector'
     if monitor == 'evaluated shape' and prog['env'] in ('prod2', 'prod3') and 0 in prog.get('_shapes', {}).get(str(nodeid), ()):
         return 'C07-empty-result-on-product-sample'
     if prog.get('mode') == 'reject':
@@ -186,6 +202,17 @@ def _kind_of(prog, s):
             return c07_env.get(prog['env']).leaves[s['name']][2]['kind']
         return s['value']['k']
     return prog.get('_kinds', {}).get(str(s['id']))
+
+
+def _ancestors(prog, nid):
+    byid = {s['id']: s for s in prog['nodes']}
+    out, todo = set(), [nid]
+    while todo:
+        for a in byid.get(todo.pop(), {}).get('args', []):
+            if a not in out:
+                out.add(a)
+                todo.append(a)
+    return out
 
 
 def _has_oob_slice(items, shape):
@@ -333,6 +360,18 @@ def run_unit(u, seed, res, ctx):
                 res.count('cases/reject')
     elif u['kind'] == 'helpers':
         run_helpers(u, seed, res, ctx)
+    elif u['kind'] == 'intrange':
+        for i in range(u['start'], u['stop']):
+            if ctx.expired():
+                res.count('cases_skipped_deadline')
+                continue
+            key = ['intrange', u['env'], i]
+            rng = rng_for(seed, 'c07', *key)
+            case = c07_gen.generate_intrange(u['env'], rng, res)
+            prog = finish(case, res, key)
+            res.count('cases/intrange')
+            if i == 3 and u['env'] == 'plain':
+                res.sample(dict(key=key, program=slim(prog)), cap=1)
     elif u['kind'] == 'fnindex':
         for opname in ('take', 'getitem'):
             for i in range(u['n']):
@@ -625,7 +664,38 @@ def repro_empty_product():
     return r.shape != (smp.npoints, 0, 2), f'(sx*sy).eval(empty (0,2) function array).shape == {r.shape}, expected {(smp.npoints, 0, 2)}'
 
 
+def repro_assemble_range():
+    numpy, function = _setup()
+    A = function.Array.cast
+    out = []
+    for label, build, expect in (
+            ('numpy.take(arange(20), numpy.stack([[-1,-2,-3],[-4,-5,-6]]))', lambda: numpy.take(A(numpy.arange(20)), numpy.stack([A(numpy.array([-1, -2, -3])), numpy.array([-4, -5, -6])])),
+             numpy.arange(20)[numpy.array([[-1, -2, -3], [-4, -5, -6]])]),
+            ('numpy.power([2,3,4], numpy.concatenate([[1,2],[0]]))', lambda: numpy.power(A(numpy.array([2, 3, 4])), numpy.concatenate([A(numpy.array([1, 2])), numpy.array([0])])),
+             numpy.array([2, 9, 1]))):
+        try:
+            r = function.eval(build())
+            if r.shape != expect.shape or (r != expect).any():
+                out.append(f'{label} = {r.tolist()}, numpy {expect.tolist()}')
+        except Exception as e:
+            out.append(f'{label} raises {type(e).__name__} at evaluation')
+    return bool(out), '; '.join(out) or 'stack/concatenate results are usable as index and as integer exponent'
+
+
+def repro_choose_bool():
+    numpy, function = _setup()
+    a = function.Argument('a', (3,))
+    v = numpy.array([-1., .5, 2.])
+    try:
+        r = function.eval(numpy.choose(a > 0, [-a, a]), dict(a=v))
+    except Exception as e:
+        return True, f'numpy.choose(a > 0, [-a, a]) builds, evaluation raises {type(e).__name__}'
+    return bool((r != numpy.abs(v)).any()), 'numpy.choose with a boolean selector evaluates'
+
+
 REPRODUCERS = {
+    'C07-assemble-no-int-range': repro_assemble_range,
+    'C07-choose-bool-selector': repro_choose_bool,
     'C07-empty-result-on-product-sample': repro_empty_product,
     'C07-optimized-mode-only': repro_optimized,
     'C07-det-inv-int': repro_det_int,
@@ -698,6 +768,7 @@ def finalize(m, tier, seed):
         rejection_exception_types=sorted(m.sets.get('reject_exception_types', ())),
         hostile=_sub(c, 'hostile/'),
         helpers=_sub(c, 'helpers/'),
+        integer_range_cases=dict(combiner=_sub(c, 'intrange/combiner/'), consumer=_sub(c, 'intrange/consumer/'), sign_class=_sub(c, 'intrange/class/')),
         excluded_corners=_sub(c, 'excluded_corner/'),
         accepted_kind_differences_seen=_sub(c, 'accepted_kind_difference/'),
         accepted_differences=KIND_DIFFERENCES.table,
@@ -729,4 +800,4 @@ def expected_cases(tier):
     from vlib.c07_ops import OPS
     from vlib.c07_env import ENV_NAMES
     from vlib.c07_gen import SHAPE_SENSITIVE, HOSTILE
-    return 100 * HELPER_UNITS[tier] + 2 * 5 * FNINDEX_PER[tier] + int(len(OPS) * sum(max(1, int(round(SYS_PER[tier] * ENV_WEIGHT[e]))) for e in ENV_NAMES)) + RAND[tier] + int(.5 * len(SHAPE_SENSITIVE) * REJECT_PER[tier]) + len(HOSTILE) * len(ENV_NAMES) * HOSTILE_PER[tier]
+    return 100 * HELPER_UNITS[tier] + 2 * 5 * FNINDEX_PER[tier] + sum(max(2, int(round(INTRANGE_PER[tier] * INTRANGE_WEIGHT[e]))) for e in ENV_NAMES) + int(len(OPS) * sum(max(1, int(round(SYS_PER[tier] * ENV_WEIGHT[e]))) for e in ENV_NAMES)) + RAND[tier] + int(.5 * len(SHAPE_SENSITIVE) * REJECT_PER[tier]) + len(HOSTILE) * len(ENV_NAMES) * HOSTILE_PER[tier]
